@@ -19,7 +19,7 @@ RULE = ("Four generated relations. (diag) a cluster with a diagonal <cov-mat> vs
         "distinct by sha1.")
 ASSUMPTIONS = ["the sub-matrix of a banded positive definite matrix on the kept rows is the covariance of the kept observations",
                "'located diagnostic' = XML <error> with a non-empty description and 1 <= lineNumber <= number of input lines"]
-REQUIRED_CLASSES = ["diag", "whiten.band>0", "exclude.band>0", "malformed.indefinite", "malformed.dim_too_big",
+REQUIRED_CLASSES = ["diag", "whiten.band>0", "exclude.band>0", "exclude.coords", "exclude.vectors", "exclude.obs", "exclude.hdiff", "malformed.indefinite", "malformed.dim_too_big",
                     "malformed.dim_too_small", "malformed.too_few", "malformed.too_many", "malformed.band_ge_dim",
                     "malformed.zero_variance"]
 
@@ -183,9 +183,35 @@ def exclude_case(draw):
     alg = draw(st.sampled_from(ALGS))
     plan = []
     for ci, cl in enumerate(net["clusters"]):
-        if cl["k"] not in ("obs", "hdiff") or len(cl["obs"]) < 1 or not draw(st.booleans()):
+        if len(cl["obs"]) < 1 or not draw(st.booleans()):
             continue
         k = len(cl["obs"])
+        if cl["k"] in ("coords", "vectors"):
+            # observed coordinates of / vectors to points that are not declared: whole units (1-3 rows) drop out of the cluster
+            g = draw(st.integers(1, 2))
+            pos = sorted(draw(st.integers(0, k)) for _ in range(g))
+            if cl["k"] == "vectors":
+                kinds = ["vec"] * g
+            else:
+                dims_ok = {"1d": ["z"], "2d": ["xy"]}.get(net["dims"], ["xy", "z", "xyz"])
+                kinds = [draw(st.sampled_from(dims_ok)) for _ in range(g)]
+            rows, gi = [], 0
+            for i in range(k + 1):
+                while gi < g and pos[gi] == i:
+                    rows.append(("g", gi))
+                    gi += 1
+                if i < k:
+                    rows.append(("o", i))
+            width = []
+            for kind, i in rows:
+                if cl["k"] == "vectors":
+                    width.append(3)
+                else:
+                    width.append(len(cl["obs"][i]["dims"]) if kind == "o" else len(kinds[i]))
+            cov = draw(gen_net.cov_for([5.0] * sum(width)))
+            plan.append({"ci": ci, "rows": rows, "kinds": kinds, "declared": [False] * g, "cov": cov, "width": width,
+                         "ends": [draw(st.booleans()) for _ in range(g)]})
+            continue
         g = draw(st.integers(1, 3))
         pos = sorted(draw(st.integers(0, k)) for _ in range(g))          # insert positions
         kinds = [draw(st.sampled_from(["distance", "direction"] if cl["k"] == "obs" else ["dh"])) for _ in range(g)]
@@ -220,6 +246,29 @@ def build_exclude(c):
     for pl in c["plan"]:
         cl0, cl1 = n0["clusters"][pl["ci"]], n1["clusters"][pl["ci"]]
         C1 = np.array(pl["cov"]["C"], float)
+        if "width" in pl:
+            keep, r0, obs1 = [], 0, []
+            for (kind, i), w in zip(pl["rows"], pl["width"]):
+                if kind == "o":
+                    keep += list(range(r0, r0 + w))
+                    obs1.append(cl1["obs"][i])
+                else:
+                    name = "Gh%d" % gid
+                    gid += 1
+                    ghosts.append((name, False))
+                    if cl1["k"] == "vectors":
+                        other = cl1["obs"][0]["from"]
+                        ob = {"from": name, "to": other} if pl["ends"][i] else {"from": other, "to": name}
+                        ob.update({"e": [0.0, 0.0, 0.0], "ghost": [12.345, -6.789, 1.234]})
+                    else:
+                        ob = {"id": name, "dims": pl["kinds"][i], "e": [0.0] * w, "ghost": [1234.5, 678.9, 12.3][:w] if pl["kinds"][i] != "z" else [12.3]}
+                    obs1.append(ob)
+                r0 += w
+            C0 = C1[np.ix_(keep, keep)]
+            cl0["cov"] = {"band": min(pl["cov"]["band"], max(len(keep) - 1, 0)), "C": C0.tolist()}
+            cl1["obs"] = obs1
+            cl1["cov"] = pl["cov"]
+            continue
         keep = [i for i, (kind, _) in enumerate(pl["rows"]) if kind == "o"]
         C0 = C1[np.ix_(keep, keep)]
         w0 = min(pl["cov"]["band"], max(len(keep) - 1, 0))
@@ -278,6 +327,8 @@ def oracle_exclude(c, stats):
     n0, n1, ghosts = build_exclude(c)
     band = any(pl["cov"]["band"] > 0 for pl in c["plan"])
     stats.label("exclude.band>0" if band else "exclude.band=0")
+    for pl in c["plan"]:
+        stats.label("exclude." + net["clusters"][pl["ci"]]["k"])
     x0, e = run(n0, c["alg"])
     if e:
         return ["exclude.reduced." + e]
